@@ -336,6 +336,13 @@ func NewManager(
 		config.Node.LazyBlockInterval.Duration = defaultLazyBlockTime
 	}
 
+	// blocks are never produced faster than one per block time, so the interval after which an idle
+	// chain produces a block cannot be shorter than that
+	if config.Node.LazyBlockInterval.Duration < config.Node.BlockTime.Duration {
+		logger.Warn("lazy block interval is shorter than block time, using block time instead", "LazyBlockInterval", config.Node.LazyBlockInterval.Duration, "BlockTime", config.Node.BlockTime.Duration)
+		config.Node.LazyBlockInterval.Duration = config.Node.BlockTime.Duration
+	}
+
 	if config.DA.MempoolTTL == 0 {
 		logger.Info("using default mempool ttl", "MempoolTTL", defaultMempoolTTL)
 		config.DA.MempoolTTL = defaultMempoolTTL
